@@ -364,7 +364,8 @@ func (cp *CollectingProcess) decodeDataSet(dataBuffer *bytes.Buffer, obsDomainID
 	}
 
 	// A data record cannot be shorter than minRecordLength (variable-length fields need at
-	// least their one-byte length prefix).
+	// least their one-byte length prefix). Whatever is left in the set and is shorter than
+	// that is padding (RFC 7011, section 3.3.1), not a record.
 	minRecordLength := 0
 	for _, ie := range template {
 		if ie.Len == entities.VariableLength {
@@ -378,14 +379,20 @@ func (cp *CollectingProcess) decodeDataSet(dataBuffer *bytes.Buffer, obsDomainID
 		return nil, fmt.Errorf("template %d with obsDomainID %d defines zero-length data records", templateID, obsDomainID)
 	}
 
-	for dataBuffer.Len() > 0 {
+	for dataBuffer.Len() >= minRecordLength {
 		elements := make([]entities.InfoElementWithValue, 0, len(template)+cp.numExtraElements)
 		for _, ie := range template {
 			var length int
 			if ie.Len == entities.VariableLength { // string / octet array
-				length = getFieldLength(dataBuffer)
+				length, err = getFieldLength(dataBuffer)
+				if err != nil {
+					return nil, err
+				}
 			} else {
 				length = int(ie.Len)
+			}
+			if dataBuffer.Len() < length {
+				return nil, fmt.Errorf("data record is truncated: field %q needs %d bytes but only %d are left in the set", ie.Name, length, dataBuffer.Len())
 			}
 			element, err := entities.DecodeAndCreateInfoElementWithValue(ie, dataBuffer.Next(length))
 			if err != nil {
@@ -520,12 +527,17 @@ func getMessageLength(reader *bufio.Reader) (int, error) {
 
 // getFieldLength returns string field length for data record
 // (encoding reference: https://tools.ietf.org/html/rfc7011#appendix-A.5)
-func getFieldLength(dataBuffer *bytes.Buffer) int {
-	oneByte, _ := dataBuffer.ReadByte()
+func getFieldLength(dataBuffer *bytes.Buffer) (int, error) {
+	oneByte, err := dataBuffer.ReadByte()
+	if err != nil {
+		return 0, fmt.Errorf("data record is truncated: missing length of variable-length field")
+	}
 	if oneByte < 255 { // string length is less than 255
-		return int(oneByte)
+		return int(oneByte), nil
 	}
 	var lengthTwoBytes uint16
-	util.Decode(dataBuffer, binary.BigEndian, &lengthTwoBytes)
-	return int(lengthTwoBytes)
+	if err := util.Decode(dataBuffer, binary.BigEndian, &lengthTwoBytes); err != nil {
+		return 0, fmt.Errorf("data record is truncated: incomplete length of variable-length field")
+	}
+	return int(lengthTwoBytes), nil
 }
